@@ -103,15 +103,20 @@ def r2(ctx, rep):
     if len(fs) != 1:
         raise AnchorMissing("impl FromStr for Target")
     g = fs[0]
-    tail = tail_expr(g["body"])
-    rep.check(tail is not None and show(tail).startswith("Err(") and "NotFound" in show(tail, maxdepth=8), "fallthrough-err",
-              "Target::from_str must fall through to Err(NotFound)", file=g["file"], line=g["l"], fn=g["path"])
-    oks = [show(r.get("e")) for r in walk(g["body"]) if r.get("k") == "return"]
-    rep.check(sorted(oks) == ["Ok(Target::Sql(None))", "Ok(Target::Sql(Some(dialect)))"], "accepted",
-              f"Target::from_str must accept exactly `sql.any` and `sql.<dialect>` (returns found: {oks})", file=g["file"], line=g["l"], fn=g["path"])
-    conds = [show(n["c"], maxdepth=10) for n in walk(g["body"]) if n.get("k") == "if"]
-    rep.check(any("strip_prefix('sql.')" in c for c in conds) and any("(dialect == 'any')" in c for c in conds) and any("sql::Dialect::from_str(dialect)" in c for c in conds),
-              "accepted-shape", f"Target::from_str conditions: {conds}", file=g["file"], line=g["l"], fn=g["path"])
+    # obligations on the values the function can produce, independent of how the decisions are spelled (if-let chain, match, early returns)
+    oks = sorted({show(n, maxdepth=6) for n in walk(g["body"]) if n.get("k") == "call" and show(n["f"]) == "Ok"})
+    ok_shapes = [re.sub(r"Some\(\w+\)", "Some(<d>)", o) for o in oks]
+    errs = [n for n in walk(g["body"]) if n.get("k") == "call" and show(n["f"]) == "Err" and "NotFound" in show(n, maxdepth=8)]
+    rep.check(bool(errs), "fallthrough-err", "Target::from_str must produce Err(NotFound) for every other name", file=g["file"], line=g["l"], fn=g["path"])
+    rep.check(sorted(set(ok_shapes)) == ["Ok(Target::Sql(None))", "Ok(Target::Sql(Some(<d>)))"], "accepted",
+              f"Target::from_str must accept exactly `sql.any` and `sql.<dialect>` (Ok values found: {oks})", file=g["file"], line=g["l"], fn=g["path"])
+    prm = [p_["name"] for p_ in g.get("params", []) if isinstance(p_, dict) and "name" in p_] or ["s"]
+    on_s = [(n["m"], lit_val(n["a"][0]) if n["a"] else None) for n in walk(g["body"]) if n.get("k") == "mcall" and show(n["r"]) == prm[0]]
+    any_lit = any((n.get("k") == "lit" and n.get("t") == "str" and n.get("v") == "any") for n in walk(g["body"]))
+    dfs = [n for n in walk(g["body"]) if n.get("k") == "call" and show(n["f"]).endswith("Dialect::from_str") and n["a"]]
+    shape = on_s == [("strip_prefix", "sql.")] and any_lit and len(dfs) == 1 and dfs[0]["a"][0].get("k") == "path" and dfs[0]["a"][0]["p"] != prm[0]
+    rep.check(shape, "accepted-shape", f"the only operation on the name must be `strip_prefix(\"sql.\")` (found {on_s}); the remainder is compared with `any` and otherwise parsed by Dialect::from_str: "
+              "anything that merely splits at the dot accepts `foo.mssql`", file=g["file"], line=g["l"], fn=g["path"])
 
 
 def r3(ctx, rep):
